@@ -337,35 +337,41 @@ func (e *Encoder) EncodePackedFloat64(tag int, vs []float64) {
 
 // EncodeNested writes a nested message to the buffer preceded by the varint-encoded tag key.
 func (e *Encoder) EncodeNested(tag int, m interface{}) error {
-	sz := Size(m)
-	e.offset += EncodeTag(e.p[e.offset:], tag, WireTypeLengthDelimited)
-	e.offset += EncodeVarint(e.p[e.offset:], uint64(sz))
 	switch tv := m.(type) {
 	case MarshalerTo:
+		sz := Size(m)
+		e.offset += EncodeTag(e.p[e.offset:], tag, WireTypeLengthDelimited)
+		e.offset += EncodeVarint(e.p[e.offset:], uint64(sz))
 		if err := tv.MarshalTo(e.p[e.offset:]); err != nil {
 			return err
 		}
 		e.offset += sz
 		return nil
 	case Marshaler:
+		// the length is taken from the marshaled data: the message may not be able to report its size
 		buf, err := tv.Marshal()
 		if err != nil {
 			return err
 		}
-		verifCopy(e, len(buf))
-		copy(e.p[e.offset:], buf)
-		e.offset += sz
+		e.encodeNestedBytes(tag, buf)
 		return nil
 	default:
 		buf, err := Marshal(tv)
 		if err != nil {
 			return err
 		}
-		verifCopy(e, len(buf))
-		copy(e.p[e.offset:], buf)
-		e.offset += sz
+		e.encodeNestedBytes(tag, buf)
 		return nil
 	}
+}
+
+// encodeNestedBytes writes the tag key, the length of buf and buf itself.
+func (e *Encoder) encodeNestedBytes(tag int, buf []byte) {
+	e.offset += EncodeTag(e.p[e.offset:], tag, WireTypeLengthDelimited)
+	e.offset += EncodeVarint(e.p[e.offset:], uint64(len(buf)))
+	verifCopy(e, len(buf))
+	copy(e.p[e.offset:], buf)
+	e.offset += len(buf)
 }
 
 // EncodeRaw writes the raw bytes of d into the buffer at the current offset
